@@ -1,0 +1,28 @@
+// Copyright (C) The Arvados Authors. All rights reserved.
+//
+// SPDX-License-Identifier: AGPL-3.0
+
+//go:build verif
+// +build verif
+
+// Machine-checked contracts (read by /verif/bin/govc; never compiled into
+// normal builds).  See /verif/DESIGN.md section 3 for the language.
+
+package controller
+
+// ------------------------------------------------------------------- C19
+// saltAuthToken (legacy proxy path): the outgoing Authorization header is
+// "Bearer " + the salted token; the incoming Authorization header is never
+// copied; the token is salted for the given remote; and a token carried in a
+// form body is looked for when the body has the urlencoded form media type
+// (RFC 1866: application/x-www-form-urlencoded).
+//@ func Handler.saltAuthToken property C19 safety -bounds
+//@   ghost ctype string = ""
+//@   calls Header.Get#1: requires $0 == "Content-Type"
+//@   calls Header.Get#1: set ctype = $r
+//@   calls Credentials.LoadTokensFromHTTPRequestBody#1: requires ctype == "application/x-www-form-urlencoded"
+//@   calls auth.SaltToken#1: requires $0 == creds.Tokens[0] && $1 == remote
+//@   calls auth.SaltToken#2: requires $1 == remote
+//@   calls Header.Set#1: requires $0 == "Authorization" && $1 == "Bearer " + token
+//@   at loop 1 back: assert !has(updatedReq.Header, "Authorization")
+//@   loop 1: invariant !has(updatedReq.Header, "Authorization") && updatedReq == old(updatedReq)
